@@ -649,6 +649,10 @@ impl Add for Natural {
                         vec.push(lower);
                     }
                 }
+                if vec.len() != len {
+                    // `len` was over-estimated by one digit
+                    vec.push(0);
+                }
             } else {
                 vec.extend_from_slice(&l_digits[..start_digit]);
                 let mut lower = 0;
